@@ -17,6 +17,9 @@ static void handle_cond (int);
 
 static defn_t *defns[DEFHASH];
 static ifstate_t *iftop = 0;
+#if defined(NEOLITH_VERIF) && defined(LEXER)
+static long verif_if_depth (void) { long n = 0; ifstate_t *p; for (p = iftop; p; p = p->next) n++; return n; }
+#endif
 
 defn_t* lookup_definition (const char *s) {
   defn_t *p;
@@ -105,6 +108,9 @@ static void handle_elif () {
           /* pop previous condition */
           iftop = p->next;
           FREE ((char *) p);
+#if defined(NEOLITH_VERIF) && defined(LEXER)
+          VERIF_CTRACE ("if.pop", verif_if_depth (), verif_if_depth ());
+#endif
 
 #ifdef LEXER
           *--outptr = '\0';
@@ -165,6 +171,9 @@ static void handle_endif (void) {
 
       iftop = p->next;
       FREE ((char *) p);
+#if defined(NEOLITH_VERIF) && defined(LEXER)
+      VERIF_CTRACE ("if.pop", verif_if_depth (), verif_if_depth ());
+#endif
     }
   else
     {
@@ -464,4 +473,7 @@ static void handle_cond (int c) {
   p->next = iftop;
   iftop = p;
   p->state = c ? EXPECT_ENDIF : EXPECT_ELSE;
+#if defined(NEOLITH_VERIF) && defined(LEXER)
+  VERIF_CTRACE ("if.push", verif_if_depth (), verif_if_depth ());
+#endif
 }
